@@ -530,7 +530,7 @@ package ggql
 //@   check panic {C03}
 //@   check frame {C06}
 //@   requires errsInc(err, 0, #alloc)
-//@   ensures[each-once] forall i int :: 0 <= i && i < len(err) && aserr(err[i]) != nil ==> prefixed(aserr(err[i]), loc)
+//@   ensures[each-once] forall i int {err[i]} :: 0 <= i && i < len(err) && aserr(err[i]) != nil ==> prefixed(aserr(err[i]), loc)
 //@   assigns fresh, forall i in err: aserr(err[i]).Path
 //@   loop 0: invariant[bounds] 0 <= rangeindex+1 && rangeindex+1 <= len(err)
 //@           invariant[done] forall i int :: 0 <= i && i <= rangeindex && aserr(err[i]) != nil ==> prefixed(aserr(err[i]), loc)
@@ -724,6 +724,9 @@ package ggql
 
 //@ spec idxPaths(ea []error, n int, m int) bool = forall k int {ea[k]} split k < m :: 0 <= k && k < len(ea) && aserr(ea[k]) != nil ==> len(aserr(ea[k]).Path) >= 1 && is(aserr(ea[k]).Path[0], int) && 0 <= as(aserr(ea[k]).Path[0], int) && as(aserr(ea[k]).Path[0], int) < n
 
+//@ spec keyPaths(ea []error, key string) bool = forall k int {ea[k]} :: 0 <= k && k < len(ea) && aserr(ea[k]) != nil ==> len(aserr(ea[k]).Path) >= 1 && aserr(ea[k]).Path[0] == box(key)
+//@ spec oldPathsKept(prev []error, dummy int) bool = forall k int {prev[k]} :: 0 <= k && k < len(prev) && aserr(prev[k]) != nil ==> aserr(prev[k]).Path == athdr(aserr(prev[k]).Path)
+
 //@ func (*Root).resolveList
 //@   props C01
 //@   check panic {C03}
@@ -737,21 +740,25 @@ package ggql
 //@           invariant[len] len(rlist) == i
 //@           invariant[errs] errsFresh(ea)
 //@           invariant[idx]{C06} idxPaths(ea, i, len(hdr(ea)))
+//@           preserves[old-paths]{C06} oldPathsKept(hdr(ea), 0)
 //@           decreases cnt - i
 //@   loop 1: invariant[bounds] 0 <= rangeindex+1 && rangeindex+1 <= len(list)
 //@           invariant[len] len(rlist) == rangeindex+1
 //@           invariant[errs] errsFresh(ea)
 //@           invariant[idx]{C06} idxPaths(ea, rangeindex+1, len(hdr(ea)))
+//@           preserves[old-paths]{C06} oldPathsKept(hdr(ea), 0)
 //@           decreases len(list) - rangeindex
 //@   loop 9: invariant[bounds] 0 <= i && (i <= cnt || i == 0)
 //@           invariant[len] len(rlist) == i
 //@           invariant[errs] errsFresh(ea)
 //@           invariant[idx]{C06} idxPaths(ea, i, len(hdr(ea)))
+//@           preserves[old-paths]{C06} oldPathsKept(hdr(ea), 0)
 //@           decreases cnt - i
 //@   loop 10: invariant[bounds] 0 <= i && (i <= cnt || i == 0)
 //@           invariant[len] len(rlist) == i
 //@           invariant[errs] errsFresh(ea)
 //@           invariant[idx]{C06} idxPaths(ea, i, len(hdr(ea)))
+//@           preserves[old-paths]{C06} oldPathsKept(hdr(ea), 0)
 //@           decreases cnt - i
 
 //@ func (*Root).resolveField
@@ -762,6 +769,7 @@ package ggql
 //@   requires root != nil && field != nil && result != nil && t != nil
 //@   requires{C09} !skippedSel(box(field), vars)
 //@   ensures[errs-fresh]{C06} errsFresh(ea)
+//@   ensures[key-path]{C06} depth < MaxResolveDepth ==> keyPaths(ea, fkey(field))
 //@   ensures[key-frame]{C01} forall k string :: k != fkey(field) ==> (has(result, k) <==> old(has(result, k))) && result[k] == old(result[k])
 //@   ensures[typename]{C01} old(field.ConType) != nil && field.Name == "__typename" ==> has(result, fkey(field)) && result[fkey(field)] == box(t.Name()) && len(ea) == 0 && #res == old(#res)
 //@   ensures[undefined-field]{C10} old(field.ConType) != nil && !isMetaName(field.Name) && old(fdOf(t, field.Name)) == nil ==> len(ea) > 0 && #res == old(#res) && (has(result, fkey(field)) <==> old(has(result, fkey(field)))) && result[fkey(field)] == old(result[fkey(field)])
